@@ -144,12 +144,20 @@ def _merged_facts(body, sym, facts):
 _BRANCH_WANTS = {"Continue": ("Ok", "Some"), "Break": ("Err", "None")}
 
 
+def _def_local(body, d):
+    if d[0] == "assign":
+        return body.blocks[d[1]]["stmts"][d[2]]["place"]["l"]
+    return d[2]["dest"]["l"]
+
+
 def _def_variant(body, d):
     """variant produced by one definition of a local: 'Ok'/'Err'/... or None when unknown"""
     if d[0] == "assign":
         rv = d[3]
         if rv.get("agg") == "adt" and isinstance(rv.get("variant"), str):
             return rv["variant"]
+        if "use" in rv and rv["use"].get("const") is not None and rv["use"]["const"].get("v") in (0, 1) and body.local_ty(_def_local(body, d)) == "bool":
+            return bool(rv["use"]["const"]["v"])
         return None
     t = d[2]
     if t["callee"]["name"] == "from_residual":
@@ -252,6 +260,9 @@ def _leaf_call_fact(body, sym, bb, wants):
         return None
     ty = body.local_ty(t["dest"]["l"])
     val = None
+    if ty == "bool" and wants and isinstance(wants[0], bool):
+        e = ("call", t["callee"]["path"], tuple(sym.op(a) for a in t["args"]), bb)
+        return {"expr": e, "val": wants[0], "text": "%s is %s" % (render(e), wants[0]), "switch": bb, "derived": True}
     for w in wants or ():
         if (w in ("Ok", "Err") and ty.startswith("std::result::Result<")) or (w in ("Some", "None") and ty.startswith("std::option::Option<")):
             val = w
@@ -274,6 +285,8 @@ def _alternatives(body, sym, facts, bb, base, max_alts):
         if e[0] == "call" and e[1].endswith("::branch") and isinstance(val, str) and val in _BRANCH_WANTS and e[2]:
             e, wants = e[2][0], _BRANCH_WANTS[val]
         elif isinstance(val, str):
+            wants = (val,)
+        elif isinstance(val, bool) and e[0] == "local":
             wants = (val,)
         if wants is None or e[0] != "local":
             continue
